@@ -26,20 +26,25 @@ pub fn worker_main(args: &[String]) {
 
 /// Outcome per case: the worker's reply, or `abort <signal/code>` / `timeout`.
 /// A `timeout` is only reported after the case, run again ALONE with six times the limit (at least 20 s),
-/// still does not answer: a slow machine (other builds running) must not look like a hang. Only the first
-/// 8 timeouts of a run are confirmed this way; a run with more of them is hanging systematically.
+/// still does not answer: a slow machine (other builds running) must not look like a hang. After two
+/// confirmed hangs no further confirmation is made (the code under test really hangs).
 pub fn run_isolated(prop: &str, cases: &[String], timeout_ms: u64, mem_mb: u64) -> Vec<String> {
+    use std::sync::atomic::Ordering::Relaxed;
     let mut out = run_isolated_once(prop, cases, timeout_ms, mem_mb);
-    let mut confirmed = 0;
     for i in 0..out.len() {
-        if out[i] == "timeout" && confirmed < 8 {
-            confirmed += 1;
+        // once two timeouts have been confirmed as real hangs in this process, the code under test hangs
+        // for real: further confirmations would only cost time
+        if out[i] == "timeout" && CONFIRMED_HANGS.load(Relaxed) < 2 {
             let again = run_isolated_once(prop, &cases[i..i + 1], (timeout_ms * 6).max(20_000), mem_mb);
-            if let Some(r) = again.into_iter().next() { if r != "timeout" { SLOW_CASES.fetch_add(1, std::sync::atomic::Ordering::Relaxed); } out[i] = r; }
+            if let Some(r) = again.into_iter().next() {
+                if r != "timeout" { SLOW_CASES.fetch_add(1, Relaxed); } else { CONFIRMED_HANGS.fetch_add(1, Relaxed); }
+                out[i] = r;
+            }
         }
     }
     out
 }
+static CONFIRMED_HANGS: std::sync::atomic::AtomicU64 = std::sync::atomic::AtomicU64::new(0);
 /// cases that exceeded the per-case limit in the batch but answered when run alone
 pub static SLOW_CASES: std::sync::atomic::AtomicU64 = std::sync::atomic::AtomicU64::new(0);
 
